@@ -678,8 +678,25 @@ pub(crate) struct SyncConfig {
     split_factor: usize,
 }
 
+#[cfg(feature = "verif-hooks")]
+impl SyncConfig {
+    pub(crate) fn verif_new(max_set_size: usize, split_factor: usize) -> Self {
+        SyncConfig {
+            max_set_size,
+            split_factor,
+        }
+    }
+}
+
 impl Default for SyncConfig {
     fn default() -> Self {
+        #[cfg(feature = "verif-hooks")]
+        if let Some((max_set_size, split_factor)) = crate::verif::sync_config() {
+            return SyncConfig {
+                max_set_size,
+                split_factor,
+            };
+        }
         SyncConfig {
             max_set_size: 1,
             split_factor: 2,
